@@ -70,6 +70,8 @@ func (cf wsConf) modelScript() string {
 }
 
 type wsRun struct {
+	picks []int
+	starved string
 	events    []string // "<tid|*>:r" ...
 	rets      [][]string
 	durs      [][]time.Duration
@@ -116,6 +118,9 @@ func runWs(cf wsConf, choices []int, free bool) wsRun {
 		s.Release()
 	}
 	defer attachFine(s, free)()
+	if fineMode && !free && fineStarve != "" {
+		s.Starve, s.StarveBudget = fineStarve, 3*wsCloseDeadline
+	}
 	var mu sync.Mutex
 	res := wsRun{rets: make([][]string, len(cf.progs)), durs: make([][]time.Duration, len(cf.progs))}
 	ec := fakes.NewExtConn()
@@ -196,6 +201,7 @@ func runWs(cf wsConf, choices []int, free bool) wsRun {
 	s.Release()
 	res.panics = s.Panics
 	res.strace = s.Trace
+	res.picks, res.starved = picksOf(s), s.Starve
 	for _, st := range s.Trace {
 		seen := map[string]string{}
 		for k, n := range st.Enabled {
@@ -223,7 +229,7 @@ func wsExplore(c *core.Ctx, sig string, cf wsConf, max int, judge func(run wsRun
 	n, ex := explore(c, max, func(choices []int) []int {
 		c.InFlight(map[string]interface{}{"configuration": cf.name, "programs": cf.modelProgs(), "peer": cf.modelScript(), "close_frame_write_ok": cf.cfok, "choices": fmt.Sprint(choices)})
 		run := runWs(cf, choices, false)
-		choices = effective(choices, run.widths)
+		choices = effective(choices, run.picks)
 		c.Eval()
 		tr := strings.Join(run.events, ";")
 		if tr == "" {
@@ -232,6 +238,9 @@ func wsExplore(c *core.Ctx, sig string, cf wsConf, max int, judge func(run wsRun
 		distinct[tr] = true
 		replay := map[string]interface{}{"configuration": cf.name, "programs": cf.modelProgs(), "peer": cf.modelScript(), "close_frame_write_ok": cf.cfok,
 			"choices": fmt.Sprint(choices), "schedule": trunc(sched.RenderTrace(run.strace), 600), "events": trunc(tr, 400), "results": renderWsRets(run.rets)}
+		if run.starved != "" {
+			replay["starved"] = run.starved + " is not resumed while parked at an I/O event (stalled underlying call), for up to 3 close deadlines"
+		}
 		for name, p := range run.panics {
 			c.Violation("panic", sig+"-panic", fmt.Sprintf("goroutine %s panicked: %v (%s)", name, p, cf.name), replay)
 		}
